@@ -79,6 +79,35 @@ def digits_of(v, base, n):
     return out
 
 
+def shape(reqs, base, n):
+    """how the recorded requests cover the n output symbols: -> (digits, [{"fn", "k"}]) where request i supplies k_i symbols
+    (getrandbits(8k) for bytes, a range of base^k otherwise) and digits are the symbols its value stands for, least
+    significant first; requests beyond the n-th symbol are not the generator's.  Any partition of the n symbols over
+    several requests is a legitimate way to draw them."""
+    digits, shp, got = [], [], 0
+    for fn, arg, val in reqs:
+        if got >= n:
+            break
+        if fn == "getrandbits":
+            k = arg // 8 if base == 256 and arg % 8 == 0 else -1
+        else:
+            rng_ = (arg[1] - arg[0] + 1) if isinstance(arg, (tuple, list)) else arg
+            if isinstance(arg, (tuple, list)):
+                val = val - arg[0]
+            k, t = 0, 1
+            while t < rng_:
+                t *= base
+                k += 1
+            if t != rng_:
+                k = -1
+        shp.append({"fn": fn, "k": k})
+        if k < 1:
+            break
+        digits += digits_of(val, base, k)
+        got += k
+    return digits, shp
+
+
 def patterns(space_log_base, n, base, rnd, k_random):
     """values of the source to script: 0, max, every single digit at its maximum, random ones"""
     top = base ** n
@@ -149,7 +178,8 @@ def run(chk):
         for v in vals:
             reqs = []
             out = getrandbytes(R(v, reqs), n)
-            ev("bytes", "getrandbytes", n=n, digits=digits_of(v, 256, n), out=list(out), requests=reqs_json(reqs))
+            dg, shp = shape(reqs, 256, n)
+            ev("bytes", "getrandbytes", n=n, digits=dg, out=list(out), requests=shp)
     alphabets = ["ab", "abc", "0123456789", pu.HASH64_CHARS if hasattr(pu, "HASH64_CHARS") else "./0123456789ABCDEFGHIJKLMNOPQRSTUVWXYZabcdefghijklmnopqrstuvwxyz",
                  "".join(chr(c) for c in range(33, 127)), "x"]
     for abc in alphabets:
@@ -163,8 +193,8 @@ def run(chk):
                     out = getrandstr(R(v, reqs), cs, n)
                     if isinstance(out, bytes):
                         out = out.decode()
-                    ev("str", "getrandstr", L=L, n=n, abc=[ord(c) for c in abc], digits=digits_of(v, L, n), out=[ord(c) for c in out],
-                       requests=reqs_json(reqs))
+                    dg, shp = shape(reqs, L, n) if L > 1 else ([0] * n, [])
+                    ev("str", "getrandstr", L=L, n=n, abc=[ord(c) for c in abc], digits=dg, out=[ord(c) for c in out], requests=shp)
 
     # --- consumers: salts parsed back from real hashes --------------------------------------
     from passlib import registry
@@ -194,7 +224,10 @@ def run(chk):
                 kw["rounds"] = 1
         ctxkw = {k: "user" for k in ("user",) if k in h.context_kwds}
         base = 256 if raw else len(chars)
-        for v in patterns(0, size, base, rnd, 2 if quick else 12)[: (6 if quick else 40)]:
+        allv = patterns(0, size, base, rnd, 3 if quick else 12)
+        if quick:            # both ends, one-digit-at-maximum patterns and random values (every region of the alphabet gets used)
+            allv = sorted(set(allv[:2] + allv[-2:] + [x for x in allv if x not in allv[:2] + allv[-2:]][:: max(1, len(allv) // 4)] + [rnd.randrange(base ** size) for _ in range(3)]))[:9]
+        for v in allv[: (9 if quick else 40)]:
             with Script(lambda k, b, v=v: v % (b if k == "range" else (1 << b))) as sc:
                 try:
                     text = h.using(**kw).hash("pw", **ctxkw)
@@ -211,12 +244,13 @@ def run(chk):
                 break
             saltreqs = [q for q in sc.requests if q[0] in ("getrandbits", "randrange")]
             if raw:
-                ev("bytes", name, n=size, digits=digits_of(v, 256, size), out=list(salt), requests=reqs_json(saltreqs[:1]))
+                dg, shp = shape(saltreqs, 256, size)
+                ev("bytes", name, n=size, digits=dg, out=list(salt), requests=shp)
             elif name in ("bcrypt", "bcrypt_sha256", "ldap_bcrypt", "django_bcrypt", "django_bcrypt_sha256"):
                 ev("bcrypt-salt", name, abc=[ord(c) for c in chars], digits=digits_of(v, base, size), out=[ord(c) for c in salt])
             else:
-                ev("str", name, L=base, n=size, abc=[ord(c) for c in chars], digits=digits_of(v, base, size), out=[ord(c) for c in salt],
-                   requests=reqs_json(saltreqs[:1]))
+                dg, shp = shape(saltreqs, base, size)
+                ev("str", name, L=base, n=size, abc=[ord(c) for c in chars], digits=dg, out=[ord(c) for c in salt], requests=shp)
         # a context never lets a configuration pin a salt
         try:
             CryptContext(schemes=[name], **{f"{name}__salt": "abcdefgh"})
@@ -237,15 +271,16 @@ def run(chk):
         for v in patterns(0, size, 256, rnd, 2)[:6]:
             with Script(lambda k, b, v=v: v % (1 << b) if k == "bits" else v % b) as sc:
                 key = TOTP.using(alg="sha256").new(size=size).key if size > 20 else TOTP.new(size=size).key
-            ev("bytes", "TOTP.new", n=size, digits=digits_of(v, 256, size), out=list(key), requests=reqs_json(sc.requests[:1]))
+            dg, shp = shape(sc.requests, 256, size)
+            ev("bytes", "TOTP.new", n=size, digits=dg, out=list(key), requests=shp)
     abc62 = "ABCDEFGHIJKLMNOPQRSTUVWXYZabcdefghijklmnopqrstuvwxyz0123456789"
     for entropy in (1, 64, 128, 256):
         n = int(math.ceil(entropy * math.log(2, 62)))
         for v in patterns(0, n, 62, rnd, 1)[:4]:
             with Script(lambda k, b, v=v: v % b) as sc:
                 s = generate_secret(entropy=entropy)
-            ev("str", "generate_secret", L=62, n=len(s), abc=[ord(c) for c in abc62], digits=digits_of(v, 62, len(s)), out=[ord(c) for c in s],
-               requests=reqs_json(sc.requests[:1]))
+            dg, shp = shape(sc.requests, 62, len(s))
+            ev("str", "generate_secret", L=62, n=len(s), abc=[ord(c) for c in abc62], digits=dg, out=[ord(c) for c in s], requests=shp)
             ev("minlen", "generate_secret", L=62, n=len(s), entropy=entropy)
     # generate_secret over alphabets of every kind of size (the length must carry the requested entropy - MinLenOk - for any alphabet)
     import string
@@ -254,15 +289,16 @@ def run(chk):
             with Script(lambda k, b: 0) as sc:
                 s_ = generate_secret(entropy=entropy, charset=cs)
             ev("minlen", f"generate_secret/{len(cs)}", L=len(cs), n=len(s_), entropy=entropy)
-            ev("str", f"generate_secret/{len(cs)}", L=len(cs), n=len(s_), abc=[ord(c) for c in cs], digits=[0] * len(s_), out=[ord(c) for c in s_], requests=reqs_json(sc.requests[:1]))
+            dg, shp = shape(sc.requests, len(cs), len(s_))
+            ev("str", f"generate_secret/{len(cs)}", L=len(cs), n=len(s_), abc=[ord(c) for c in cs], digits=dg, out=[ord(c) for c in s_], requests=shp)
     for charset in ("ascii_62", "ascii_50", "ascii_72", "hex"):
         chars = pwd.default_charsets[charset]
         for entropy in (28, 36, 48, 56, 60, 128):
             for v in [0, len(chars) ** 3 - 1, rnd.randrange(2 ** 200)]:
                 with Script(lambda k, b, v=v: v % b) as sc:
                     s = pwd.genword(entropy=entropy, charset=charset)
-                ev("str", f"genword/{charset}", L=len(chars), n=len(s), abc=[ord(c) for c in chars], digits=digits_of(v % len(chars) ** len(s), len(chars), len(s)),
-                   out=[ord(c) for c in s], requests=reqs_json(sc.requests[:1]))
+                dg, shp = shape(sc.requests, len(chars), len(s))
+                ev("str", f"genword/{charset}", L=len(chars), n=len(s), abc=[ord(c) for c in chars], digits=dg, out=[ord(c) for c in s], requests=shp)
             ev("minlen", f"genword/{charset}", L=len(chars), n=len(s), entropy=entropy)
     for wordset in ("eff_long", "eff_short", "bip39"):
         words = pwd.default_wordsets[wordset]
@@ -291,6 +327,34 @@ def run(chk):
     if len(s) != 12 or picks[:12] != [62] * 12 or len(s2) * math.log2(62) < 128 or (len(s2) - 1) * math.log2(62) >= 128:
         chk.violation("libpass:generate_salt", "libpass salt generator does not draw one uniform symbol per position / wrong length", {"s": s, "s2": s2})
     ev("minlen", "libpass.generate_salt_by_entropy", L=62, n=len(s2), entropy=128)
+    # libpass sha-crypt hashers: 16 salt symbols, each one uniform pick from the format's 64-symbol alphabet
+    try:
+        import secrets as _secrets
+        from libpass.hashers.sha_crypt import SHA256Hasher, SHA512Hasher
+        from libpass.inspect.sha_crypt import inspect_sha_crypt, SHA256CryptInfo, SHA512CryptInfo
+        H64ABC = "./0123456789ABCDEFGHIJKLMNOPQRSTUVWXYZabcdefghijklmnopqrstuvwxyz"
+        for cls, info in ((SHA256Hasher, SHA256CryptInfo), (SHA512Hasher, SHA512CryptInfo)):
+            for start in (0, 5, 63):
+                picks2 = []
+                real_choice = _secrets.choice
+
+                def stub(seq, picks2=picks2, start=start):
+                    i = (start + 9 * len(picks2)) % len(seq)
+                    picks2.append((len(seq), i, seq[i]))
+                    return seq[i]
+                _secrets.choice = stub
+                try:
+                    hs = cls(rounds=1000).hash("pw")
+                finally:
+                    _secrets.choice = real_choice
+                salt = inspect_sha_crypt(hs, info).salt
+                chk.evaluations += 1
+                chk.count(("libpass-sha-salt", cls.__name__, start))
+                if len(salt) != 16 or [p[0] for p in picks2[:16]] != [64] * 16 or "".join(p[2] for p in picks2[:16]) != salt or set("".join(str(p[2]) for p in picks2)) - set(H64ABC):
+                    chk.violation(f"libpass:{cls.__name__}:salt", f"{cls.__name__}: salt {salt!r} is not 16 uniform picks from the 64-symbol sha-crypt alphabet (alphabet sizes used: {sorted({p[0] for p in picks2})})",
+                                  {"salt": salt, "picks": [list(map(str, p)) for p in picks2[:20]]})
+    except ImportError as ex:
+        chk.uncovered.append(f"libpass sha-crypt hashers: {ex}")
     # libpass hashers: the configured salt strength is the one used
     try:
         from libpass.hashers.pbkdf2 import PBKDF2SHA256Handler, PBKDF2SHA512Handler
